@@ -187,7 +187,8 @@ def main():
                     return 2, bounded_runs, known_bounded
                 mine = [f for f in fails if f["kind"] in cs["kinds"]]
                 bounded_runs.append(dict(scenario=f"range sweep: every statement ({'nested ones included' if tier == 'thorough' else 'top-level, nested ones in files up to 6000 bytes'}) of {stats['files']} test inputs as the formatting range x {stats['configs']} configurations = {stats['runs']} runs; "
-                                                  "the text in front of the statement's leading trivia and behind its last line is reproduced, blank lines in front of it are kept (capped at one)",
+                                                  "the output parses, has the same tree and the same comments as the input; the text in front of the statement's leading trivia and behind its last line is reproduced, blank lines in front of it are kept (capped at one)"
+                                                  + f" — oracles of this property: {cs['kinds']}",
                                          violated=bool(mine), detail=f"{len(mine)} failing runs"))
                 seen_c = set()
                 for f in mine:
